@@ -107,3 +107,16 @@ Print Assumptions c11_split. Print Assumptions c11_truncate_noop. Print Assumpti
 Print Assumptions c11_contract_noop_unset. Print Assumptions c11_contract_noop_mask. Print Assumptions c11_contract_noop_chi.
 Print Assumptions c11_start_stop_sound. Print Assumptions c11_start_stop_error. Print Assumptions c11_transpose_partial. Print Assumptions c11_transpose_partial_single_column.
 Print Assumptions c11_netwfb_sound. Print Assumptions c11_example_wf. Print Assumptions c11_example_values.
+
+(* ---- added: the specification `value` equals the flat sum over all bond assignments; transposition for every
+   well-shaped network (Tensor/Flat.v, Tensor/TransposeAll.v) ---- *)
+From QV Require Import Tensor.Flat Tensor.TransposeAll.
+Theorem c11_value_flat : forall (K : cring) (r : nat) (tn : list (list (option (tensor K)))), netwf K r tn -> value r tn = flatval K tn (repeat 0 r).
+Proof. exact value_flat_wf. Qed.
+Theorem c11_value_flat_matrix : forall (K : cring) (r : nat) (tn : list (list (option (tensor K)))), tn <> [] -> Forall (vchain K) tn -> length (last tn []) = r -> map (deo K) (last tn []) = repeat 1 r -> value r tn = symval K tn (repeat 0 r).
+Proof. exact value_symval. Qed.
+Theorem c11_transpose : forall (K : cring) (r c : nat) (tn : list (list (option (tensor K)))), netwf K r tn -> length tn = c -> value c (transpose_net K r tn) = value r tn.
+Proof. exact transpose_value. Qed.
+Print Assumptions c11_value_flat.
+Print Assumptions c11_value_flat_matrix.
+Print Assumptions c11_transpose.
